@@ -116,3 +116,75 @@ Proof. vm_compute. reflexivity. Qed.
 Example c05_one_ns_before_accepted :
   validate P_C03.ok_cfg {| i_sec := 1704153599; i_nsec := 999999999 |} (P_C03.ok_response [P_C03.ok_assertion "2024-01-02T00:00:00Z"]) = Ok tt.
 Proof. vm_compute. reflexivity. Qed.
+
+(* ---------- the clock as a variable: acceptance over ALL instants ---------- *)
+Lemma ile_ilt_trans a b c : ile a b -> ilt b c -> ilt a c.
+Proof. unfold ile, ilt. lia. Qed.
+Lemma ilt_ile_trans a b c : ilt a b -> ile b c -> ilt a c.
+Proof. unfold ile, ilt. lia. Qed.
+
+(* acceptance is antitone in the clock, with NO side condition: whatever is accepted at an instant is accepted at every
+   earlier instant, so the set of instants at which a given response is accepted is a down-set (an initial segment) *)
+Lemma accepted_at_every_earlier_instant cfg now now' r :
+  ile now now' -> validate cfg now' r = Ok tt -> validate cfg now r = Ok tt.
+Proof.
+  intros Hle H. apply validate_ok_iff in H. apply validate_ok_iff.
+  destruct H as (HA & HN & HI & HS & HF). repeat (split; [assumption|]).
+  eapply Forall_impl; [|exact HF]. intros a (noa & Hs & Hlt). exists noa. split; [exact Hs|].
+  eapply ile_ilt_trans; eassumption.
+Qed.
+
+(* ... equivalently: once rejected, rejected for ever after *)
+Lemma rejected_at_every_later_instant cfg now now' r e :
+  ile now now' -> validate cfg now r = Err e -> exists e', validate cfg now' r = Err e'.
+Proof.
+  intros Hle H. destruct (validate cfg now' r) as [[]|e'] eqn:E; [|eauto].
+  rewrite (accepted_at_every_earlier_instant _ _ _ _ Hle E) in H. discriminate H.
+Qed.
+
+(* the end of that initial segment is exactly the earliest NotOnOrAfter: with the non-time checks passing, the response is
+   accepted at [now] iff [now] is strictly before a bound [m] that is the NotOnOrAfter of one of its assertions and at or
+   before the NotOnOrAfter of all of them *)
+Lemma accepted_iff_before_earliest_bound cfg r m :
+  AttrsOK (cfg_acs_url cfg) (r_destination r) (r_version r) -> r_assertions r <> [] ->
+  IssuerOK cfg (r_issuer r) -> StatusOK (r_status r) ->
+  Forall (fun a => exists noa, AssertionShapeOK cfg a noa) (r_assertions r) ->
+  (exists a, In a (r_assertions r) /\ AssertionShapeOK cfg a m) ->
+  Forall (fun a => forall noa, AssertionShapeOK cfg a noa -> ile m noa) (r_assertions r) ->
+  forall now, validate cfg now r = Ok tt <-> ilt now m.
+Proof.
+  intros HA HN HI HS HF (a0 & Hin0 & Hs0) Hmin now.
+  rewrite (accepted_iff_all_unexpired cfg now r HA HN HI HS HF). rewrite !Forall_forall in *. split.
+  - intros H. exact (H a0 Hin0 m Hs0).
+  - intros Hlt a Ha noa Hs. eapply ilt_ile_trans; [exact Hlt|]. exact (Hmin a Ha noa Hs).
+Qed.
+
+(* the instants at which no time warning is raised form an interval: between two such instants there is no warning *)
+Lemma window_is_convex cfg t1 t2 t3 a w1 w2 w3 :
+  verify_conditions cfg t1 a = Ok w1 -> verify_conditions cfg t2 a = Ok w2 -> verify_conditions cfg t3 a = Ok w3 ->
+  ile t1 t2 -> ile t2 t3 ->
+  w_invalid_time w1 = false -> w_invalid_time w3 = false -> w_invalid_time w2 = false.
+Proof.
+  intros H1 H2 H3 L12 L23 F1 F3.
+  destruct (invalid_time_exact _ _ _ _ H1) as (c1 & nb1 & noa1 & C1 & NB1 & NOA1 & I1).
+  destruct (invalid_time_exact _ _ _ _ H2) as (c2 & nb2 & noa2 & C2 & NB2 & NOA2 & I2).
+  destruct (invalid_time_exact _ _ _ _ H3) as (c3 & nb3 & noa3 & C3 & NB3 & NOA3 & I3).
+  rewrite C1 in C2, C3. inversion C2; subst c2. inversion C3; subst c3.
+  rewrite NB1 in NB2, NB3. inversion NB2; subst nb2. inversion NB3; subst nb3.
+  rewrite NOA1 in NOA2, NOA3. inversion NOA2; subst noa2. inversion NOA3; subst noa3.
+  destruct (w_invalid_time w2) eqn:W2; [|reflexivity]. exfalso.
+  rewrite F1 in I1. rewrite F3 in I3.
+  assert (N1 : ~ (ilt t1 nb1 \/ ile noa1 t1)) by (intros X; apply I1 in X; discriminate X).
+  assert (N3 : ~ (ilt t3 nb1 \/ ile noa1 t3)) by (intros X; apply I3 in X; discriminate X).
+  destruct (proj1 I2 eq_refl) as [X|X]; revert N1 N3 X L12 L23; unfold ile, ilt; lia.
+Qed.
+
+(* the premises are satisfiable: from ONE computed acceptance, acceptance at every instant up to it *)
+Example c05_accepted_at_all_earlier_instants : forall now,
+  ile now {| i_sec := 1704153599; i_nsec := 999999999 |} ->
+  validate P_C03.ok_cfg now (P_C03.ok_response [P_C03.ok_assertion "2024-01-02T00:00:00Z"]) = Ok tt.
+Proof. intros now H. eapply accepted_at_every_earlier_instant; [exact H | exact c05_one_ns_before_accepted]. Qed.
+Example c05_rejected_at_all_later_instants : forall now,
+  ile {| i_sec := 1704153600; i_nsec := 0 |} now ->
+  exists e, validate P_C03.ok_cfg now (P_C03.ok_response [P_C03.ok_assertion "2024-01-02T00:00:00Z"]) = Err e.
+Proof. intros now H. eapply rejected_at_every_later_instant; [exact H | exact c05_boundary_expired]. Qed.
